@@ -30,15 +30,15 @@ type Ty struct {
 	UserEqualVal bool
 }
 
-func B(n string) *Ty              { return &Ty{K: "basic", Name: n} }
-func Named(n string, u *Ty) *Ty   { return &Ty{K: "named", Name: n, Under: u} }
-func Ref(n string) *Ty            { return &Ty{K: "ref", Name: n} }
-func Ptr(e *Ty) *Ty               { return &Ty{K: "ptr", Elem: e} }
-func Slice(e *Ty) *Ty             { return &Ty{K: "slice", Elem: e} }
-func Array(n int, e *Ty) *Ty      { return &Ty{K: "array", N: n, Elem: e} }
-func Map(k, e *Ty) *Ty            { return &Ty{K: "map", Key: k, Elem: e} }
-func Struct(f ...Fld) *Ty         { return &Ty{K: "struct", Fields: f} }
-func F(n string, t *Ty) Fld       { return Fld{n, t} }
+func B(n string) *Ty                 { return &Ty{K: "basic", Name: n} }
+func Named(n string, u *Ty) *Ty      { return &Ty{K: "named", Name: n, Under: u} }
+func Ref(n string) *Ty               { return &Ty{K: "ref", Name: n} }
+func Ptr(e *Ty) *Ty                  { return &Ty{K: "ptr", Elem: e} }
+func Slice(e *Ty) *Ty                { return &Ty{K: "slice", Elem: e} }
+func Array(n int, e *Ty) *Ty         { return &Ty{K: "array", N: n, Elem: e} }
+func Map(k, e *Ty) *Ty               { return &Ty{K: "map", Key: k, Elem: e} }
+func Struct(f ...Fld) *Ty            { return &Ty{K: "struct", Fields: f} }
+func F(n string, t *Ty) Fld          { return Fld{n, t} }
 func NStruct(n string, f ...Fld) *Ty { return Named(n, Struct(f...)) }
 
 func (t *Ty) Expr() string {
@@ -148,11 +148,11 @@ func (t *Ty) contains(pred func(*Ty) bool) bool {
 
 // Gen accumulates declarations and reference functions for one package.
 type Gen struct {
-	decls   map[string]*Ty // named type declarations
-	order   []string
-	funcs   map[string]string // function name -> source
-	forder  []string
-	methods []string
+	decls    map[string]*Ty // named type declarations
+	order    []string
+	funcs    map[string]string // function name -> source
+	forder   []string
+	methods  []string
 	needMath bool
 }
 
